@@ -157,7 +157,18 @@ def simplify(case):
         yield c
 
 
+def long_path_cases():
+    """Depth caps in the thousands: every pull descends (and credits) a path of > 1075 cells, the length at which
+    2**-i underflows to 0."""
+    out = []
+    for n, hm, seed in ((1300, 1300, 13), (1200, 5000, 5)):
+        out.append({"algo": {"name": "VROOM", "params": {"n": n, "h_max": hm, "b": 1.0, "f_max": 1.0}}, "partition": {"cls": "BinaryPartition"},
+                    "domain": [[0.0, 1.0]], "rng": {"mode": "seed", "seed": seed}, "T": 3, "reward": {"law": "noise", "seed": seed, "npfloat": True}})
+    return out
+
+
 def run_shard(ctx):
+    ctx.enumerate("long-path", long_path_cases(), check_case)
     quick = ctx.tier == "quick"
     ctx.drive("vroom", gen.run_case(names=["VROOM"], binary_children_only=True, extreme=True, n_range=(16, 300) if quick else (16, 1200),
                                     script_prob=0.25, full_T_prob=0.4, T_min=3,
